@@ -5,6 +5,7 @@ import (
 	"io/fs"
 	"math/rand/v2"
 	"strings"
+	"syscall"
 
 	"github.com/avfs/avfs"
 	"github.com/avfs/avfs/vfs/failfs"
@@ -418,6 +419,73 @@ func c12History(c *rt.Ctx, fsType string, h int) {
 			}
 		}
 		env.CloseAll()
+	}
+	// ---- (e) the function is changed while handles are open: a call on a handle asks the function installed NOW ----
+	{
+		base, _ := c12Setup(fsType, sa, sb)
+		twin, _ := c12Setup(fsType, sa, sb)
+		ff := failfs.New(base)
+		env, tenv := fsx.NewEnv(ff), fsx.NewEnv(twin)
+		fr := &c12Run{base: base, failAt: -1}
+		both := func(o fsx.Op, phase string) {
+			a, b := env.Exec(o), tenv.Exec(o)
+			c.Rep.Case(fmt.Sprintf("function-changed|%s|%s|%s|%s", fsType, phase, o.K, a.Err), true)
+			sa, sb := c12Snap(base, fsx.SnapOpts{}).String(), c12Snap(twin, fsx.SnapOpts{}).String()
+			if a.Err != b.Err || a.Val != b.Val || sa != sb {
+				c.Disagree(fmt.Sprintf("function-changed|%s|%s|%s|wrapped=%s|bare=%s", fsType, phase, o.K, a.Err, b.Err), fmt.Sprintf("FailFS(%s), handle opened under another failure function, function now %s: %s returns %s, on the bare file system %s; %v", fsType, phase, o, a, b, diffText(sa, sb)), nil)
+			}
+		}
+		both(fsx.Op{K: "OpenFile", P: "/tmp/e-handle", Flag: syscall.O_RDWR | syscall.O_CREAT, Perm: 0o644, H: 7}, "none")
+		if env.Files[7] == nil || tenv.Files[7] == nil {
+			// the generated tree has no usable /tmp: nothing to hold a handle on
+			c.Rep.Count("function_changed_scenarios_skipped", 1)
+			env.CloseAll()
+			tenv.CloseAll()
+			return
+		}
+		both(fsx.Op{K: "F.Write", H: 7, Data: "0123456789"}, "none")
+		writes := []fsx.Op{{K: "F.Write", H: 7, Data: "ab"}, {K: "F.WriteString", H: 7, Data: "cd"}, {K: "F.WriteAt", H: 7, Data: "ef", N: int64(1 + r.IntN(12))}, {K: "F.Truncate", H: 7, N: int64(r.IntN(14))},
+			{K: "F.Chmod", H: 7, Perm: 0o600}, {K: "F.Chown", H: 7, N: 0, M: 0}, {K: "F.Sync", H: 7}}
+		reads := []fsx.Op{{K: "F.ReadAt", H: 7, N: 4, M: 1}, {K: "F.Stat", H: 7}, {K: "F.Seek", H: 7, N: 2, M: 0}, {K: "F.Read", H: 7, N: 3}}
+		for round := 0; round < 2; round++ {
+			// the supplied read-only function installed after the handle was opened for writing
+			_ = ff.SetFailFunc(failfs.ReadOnlyFunc)
+			before := c12Snap(base, fsx.SnapOpts{Mtime: true}).String()
+			for _, o := range writes {
+				res := env.Exec(o)
+				after := c12Snap(base, fsx.SnapOpts{Mtime: true}).String()
+				c.Rep.Case(fmt.Sprintf("function-changed|%s|read-only|%s|%s", fsType, o.K, res.Err), true)
+				if res.E == nil || after != before {
+					c.Disagree(fmt.Sprintf("function-changed|%s|read-only|%s|%s|changed=%v", fsType, o.K, res.Err, after != before), fmt.Sprintf("FailFS(%s): ReadOnlyFunc installed after the handle was opened: %s returns %s; base changed: %v", fsType, o, res, diffText(before, after)), nil)
+					before = after
+				}
+			}
+			for _, o := range reads {
+				both(o, "read-only")
+			}
+			// a plan that fails one primitive of the File interface, installed after the handle was opened
+			for _, o := range writes {
+				fr.failFn, fr.log, fr.injErr = c12Fn(o), nil, nil
+				if fr.failFn == "" {
+					continue
+				}
+				_ = ff.SetFailFunc(fr.fn)
+				res := env.Exec(o)
+				after := c12Snap(base, fsx.SnapOpts{Mtime: true}).String()
+				c.Rep.Case(fmt.Sprintf("function-changed|%s|plan|%s|%s", fsType, o.K, res.Err), true)
+				if fr.injErr == nil || res.E != fr.injErr || after != before {
+					c.Disagree(fmt.Sprintf("function-changed|%s|plan|%s|%s|consulted=%v|changed=%v", fsType, o.K, res.Err, fr.injErr != nil, after != before), fmt.Sprintf("FailFS(%s): a function failing every %s installed after the handle was opened: %s returns %s (the function was consulted: %v); base changed: %v", fsType, fr.failFn, o, res, fr.injErr != nil, diffText(before, after)), nil)
+					before = after
+				}
+			}
+			// everything let through again: the same handle behaves as one of the bare file system
+			_ = ff.SetFailFunc(failfs.OkFunc)
+			for _, o := range append(append([]fsx.Op{}, writes...), reads...) {
+				both(o, "let-through")
+			}
+		}
+		env.CloseAll()
+		tenv.CloseAll()
 	}
 }
 
